@@ -5,6 +5,8 @@ import (
 	"path/filepath"
 	"strings"
 	"time"
+
+	"github.com/flosch/pongo2/v6"
 )
 
 func init() { props["C13"] = runC13 }
@@ -171,12 +173,69 @@ func runC13(r *run) {
 		for _, c := range recCases {
 			emit(caseT{"recursion", c.args})
 		}
+		// a library is what the loaders serve when the importing template is compiled: several
+		// importers compiled in one set while the library changes in between
+		for i := 0; i < 12; i++ {
+			emit(caseT{"importhist", []string{fmt.Sprint(i)}})
+		}
 	}
 	driveCases(r, gen, func(r *run, c caseT) { execC13(r, c) })
 	r.finish(nil)
 }
 
+func execImportHist(r *run, c caseT) {
+	var i int
+	fmt.Sscanf(c.args[0], "%d", &i)
+	libs := []string{"{% macro m(a, b=\"d1\") export %}1[{{ a }}|{{ b }}]{% endmacro %}", "{% macro m(a, b=\"d2\", c=\"e2\") export %}2[{{ a }}|{{ b }}|{{ c }}]{% endmacro %}",
+		"{% macro m(a) export %}3<{{ a }}>{% endmacro %}{% macro k() export %}K{% endmacro %}"}
+	wants := []string{"1[x|d1]", "2[x|d2|e2]", "3<x>"}
+	files := map[string]string{"lib.tpl": libs[0], "page.tpl": "{% import \"lib.tpl\" m %}{{ m(\"x\") }}", "sub/page.tpl": "{% import \"../lib.tpl\" m as q %}{{ q(\"x\") }}"}
+	loader := newMemLoader(files)
+	set := pongo2.NewSet("importhist", loader)
+	set.Debug = i%4 == 3
+	importer := func(step int) (string, error) {
+		var tpl *pongo2.Template
+		var err error
+		switch (i + step) % 3 {
+		case 0:
+			tpl, err = set.FromString("{% import \"lib.tpl\" m %}{{ m(\"x\") }}")
+		case 1:
+			tpl, err = set.FromFile("page.tpl")
+		default:
+			tpl, err = set.FromFile("sub/page.tpl")
+		}
+		if err != nil {
+			return "", err
+		}
+		return tpl.Execute(nil)
+	}
+	var obs []string
+	id := -1
+	for step := 0; step < 3; step++ {
+		loader.mu.Lock()
+		files["lib.tpl"] = libs[step]
+		loader.mu.Unlock()
+		out, err := importer(step)
+		if err != nil {
+			out = "err:" + err.Error()
+		}
+		obs = append(obs, out)
+		if out != wants[step] && id < 0 {
+			id = r.emit(c.op, c.args, "importhist")
+			r.reject(id, "a template compiled now imported a macro library as the loaders served it earlier", map[string]any{"step": step + 1, "library_now": libs[step], "observed": out, "expected": wants[step]})
+		}
+	}
+	if id < 0 {
+		r.emit(c.op, c.args, "importhist")
+	}
+	r.nontrivial("importhist" + c.args[0])
+}
+
 func execC13(r *run, c caseT) {
+	if c.op == "importhist" {
+		execImportHist(r, c)
+		return
+	}
 	want := "?"
 	if len(c.args) > 9 {
 		want = unhx(c.args[9])
